@@ -224,6 +224,8 @@ def insert_loop_contracts(body, loops, ledger, fn):
         if start:
             body = body[:ob + 1] + "\n" + start + "\n" + body[ob + 1:]
         body = body[:ob] + "\n" + spec["spec"] + "\n" + body[ob:]
+        if spec.get("before"):
+            body = body[:kw] + spec["before"] + "\n" + body[kw:]
         ledger.append("loop %d: injected invariant/decreases%s" % (ordn, " + proof hints" if (start or end) else ""))
     return body
 
